@@ -432,7 +432,7 @@ Section Frame.
     - simpl. rewrite N.sub_diag. reflexivity.
     - pose proof (segs_from_le _ _ _ Hrest) as Hle.
       pose proof (contig_upper ps 0 p Hcontig Hin) as Hup.
-      cbn [read_segs]. rewrite (IH store cm Hw Hcm).
+      cbn [read_segs]. unfold seg_read. rewrite (IH store cm Hw Hcm).
       replace (N.to_nat (last - first)) with (N.to_nat k + N.to_nat (last - (first + k)))%nat by lia.
       rewrite nseq_app, map_app. f_equal.
       + assert (Hfind : forall x, x < k -> find_part (first + x) = Some p).
